@@ -545,3 +545,52 @@ def domain_cases(tier, rng):
     cases.append(Case("todo", lit(Z(1)), TZ, [{"k": "todo"}]))
     cases.append(Case("todo:in-function-not-called", lit(Z(1)), TZ, []))
     return cases
+
+
+# ------------------------------------------------------------------------------------------ C12: production histories of texts
+ALPHA = ["a", "ö", "€", "😀"]
+
+
+def text_history_cases(tier, rng):
+    """a Text variable t built by a literal and up to n production steps, then every observer"""
+    inits = ["", "a", "ö€", "a😀b", "€b", "😀"]
+    steps = {
+        "cat_t": lambda: [setv(lvid("t"), bin_("cat", ident("t"), lit(T("ö"))))],
+        "cat_c": lambda: [setv(lvid("t"), bin_("cat", ident("t"), lit(C("€"))))],
+        "c_cat": lambda: [setv(lvid("t"), bin_("cat", lit(C("a")), ident("t")))],
+        "t_cat": lambda: [setv(lvid("t"), bin_("cat", lit(T("😀x")), ident("t")))],
+        "slice2": lambda: [setv(lvid("t"), bin_("sfrom", ident("t"), zl(2)))],
+        "slice_to2": lambda: [setv(lvid("t"), bin_("sto", ident("t"), zl(2)))],
+        "rep1_a": lambda: [setv(idx_lv(lvid("t"), zl(1)), lit(C("a")))],
+        "rep1_4": lambda: [setv(idx_lv(lvid("t"), zl(1)), lit(C("😀")))],
+        "rep2_o": lambda: [setv(idx_lv(lvid("t"), zl(2)), lit(C("ö")))],
+        "replast_a": lambda: [setv(idx_lv(lvid("t"), un("len", ident("t"))), lit(C("a")))],
+        "ref_rep1": lambda: [{"k": "expr", "e": call("ersetze_zeichen", [("t", lvid("t")), ("c", lit(C("b"))), ("i", zl(1))])}],
+        "copy": lambda: [var("u%d" % rng.randrange(10 ** 6), TT, ident("t"), False)],
+    }
+    nsteps = 2 if tier == "quick" else 3
+    cases = []
+    for init in inits:
+        for n in range(0, nsteps + 1):
+            for hist in itertools.product(sorted(steps), repeat=n):
+                if tier == "quick" and n == 2 and rng.random() < 0.5:
+                    continue
+                if tier == "thorough" and n == 3 and rng.random() < 0.8:
+                    continue
+                su = [var("t", TT, lit(T(init)), False)]
+                for h in hist:
+                    su += steps[h]()
+                key = "hist:%s:%s" % ("".join("%x." % ord(c) for c in init), "+".join(hist))
+                # observers: everything printed into one accumulated text
+                obs = acc_init() + [acc_add(as_text(un("len", ident("t")))), acc_add(ident("t")),
+                                    {"k": "foreach", "v": "c", "t": TC, "idx": "ix", "in": ident("t"), "body": [acc_add(bin_("cat", as_text(ident("ix")), ident("c")))]},
+                                    {"k": "for", "v": "i", "t": TZ, "from": zl(1), "to": un("len", ident("t")), "step": NONE, "body": [
+                                        acc_add(as_text(cast(TZ, bin_("idx", ident("t"), ident("i"))))), acc_add(bin_("sfrom", ident("t"), ident("i"))), acc_add(bin_("sto", ident("t"), ident("i")))]},
+                                    # equality with a text of the same code points produced another way (character by character)
+                                    var("fresh", TT, lit(T("")), False),
+                                    {"k": "foreach", "v": "c2", "t": TC, "idx": "", "in": ident("t"), "body": [setv(lvid("fresh"), bin_("cat", ident("fresh"), ident("c2")))]},
+                                    acc_add(as_text(bin_("eq", ident("t"), ident("fresh")))), acc_add(as_text(bin_("eq", ident("fresh"), ident("t")))),
+                                    acc_add(as_text(bin_("ne", ident("t"), bin_("cat", ident("fresh"), lit(T("a")))))),
+                                    acc_add(as_text(bin_("eq", bin_("cat", ident("t"), lit(T("z"))), bin_("cat", ident("fresh"), lit(T("z"))))))]
+                cases.append(Case(key, ident("acc"), TT, su + obs))
+    return cases
